@@ -38,6 +38,7 @@ type c09Thread struct {
 	result   byte // k e p x
 	bodies   int32
 	after    bool
+	goid     int64
 }
 
 type c09Run struct {
@@ -60,6 +61,52 @@ func goid() int64 {
 	}
 	id, _ := strconv.ParseInt(s, 10, 64)
 	return id
+}
+
+var c09StackBuf = make([]byte, 1<<20)
+
+// c09GoState returns the scheduler state of goroutine id as runtime.Stack prints it ("running", "runnable",
+// "sync.Mutex.Lock", "sync.Cond.Wait", "chan receive", …; "" if the goroutine is not listed).  It is how the
+// harness KNOWS that a goroutine it released into mu.Lock() has joined the mutex's wait queue (sync.Mutex wakes
+// its waiters in arrival order), instead of guessing from a quiescence window.
+func c09GoState(id int64) string {
+	n := runtime.Stack(c09StackBuf, true)
+	txt := string(c09StackBuf[:n])
+	key := fmt.Sprintf("goroutine %d [", id)
+	i := strings.Index(txt, key)
+	for i > 0 && txt[i-1] != '\n' {
+		j := strings.Index(txt[i+1:], key)
+		if j < 0 {
+			return ""
+		}
+		i += 1 + j
+	}
+	if i < 0 {
+		return ""
+	}
+	rest := txt[i+len(key):]
+	e := strings.IndexAny(rest, "],")
+	if e < 0 {
+		return ""
+	}
+	return rest[:e]
+}
+
+func c09InMutexQueue(st string) bool { return st == "sync.Mutex.Lock" || st == "semacquire" }
+
+// waitQueued polls until goroutine th is parked inside mu.Lock() (true) or has come through to its next yield
+// point / the deadline passes (false)
+func (th *c09Thread) waitQueued(d time.Duration) bool {
+	deadline := time.Now().Add(d)
+	for {
+		if c09InMutexQueue(c09GoState(th.goid)) {
+			return true
+		}
+		if len(th.arrive) > 0 || time.Now().After(deadline) {
+			return false
+		}
+		time.Sleep(20 * time.Microsecond)
+	}
 }
 
 func c09Self() (*c09Run, *c09Thread) {
@@ -146,7 +193,8 @@ func (r *c09Run) launch(th *c09Thread) {
 	ready := make(chan struct{})
 	go func() {
 		defer r.wg.Done()
-		r.byGo.Store(goid(), th)
+		th.goid = goid()
+		r.byGo.Store(th.goid, th)
 		close(ready)
 		defer func() {
 			if e := recover(); e != nil {
@@ -413,7 +461,11 @@ func c09RunOnce(line string, timeout time.Duration) (string, string) {
 				verdict = fmt.Sprintf("STUCK@%d:%d:not-parked", step, t)
 				break
 			}
-			if th.await(c09Quiesce) {
+			if y == "lock" && th.waitQueued(timeout) {
+				// positively blocked: the goroutine sits in the mutex's wait queue (behind those queued earlier)
+				th.loose = y
+				ys = append(ys, fmt.Sprintf("%d:blocked", t))
+			} else if th.await(c09Quiesce) {
 				verdict = fmt.Sprintf("NOTBLOCKED@%d:%d:%s", step, t, y)
 			} else {
 				th.loose = y
@@ -448,6 +500,15 @@ func c09RunOnce(line string, timeout time.Duration) (string, string) {
 				break
 			}
 			ys = append(ys, fmt.Sprintf("%d:%s", t, y))
+			if y == "broadcast" {
+				// a woken Cond sleeper re-acquires the mutex inside Wait: let it join the mutex's wait queue
+				// (behind probe-released lockers already there) before anything else is released
+				for _, w := range r.ths {
+					if w.loose == "wait" {
+						w.waitQueued(timeout)
+					}
+				}
+			}
 		}
 		if verdict != "" {
 			break
